@@ -38,7 +38,7 @@ func init() {
 		Level: "exploration",
 		Cases: func(t string) int {
 			if t == ev.Thorough {
-				return 24000
+				return 40000
 			}
 			return 640
 		},
@@ -51,7 +51,7 @@ func init() {
 		Rule: "each case = one sync of 1-2 trusted roots (world state built by 5-65 random account operations + up to 45 filler accounts sharing storage templates + optional validator list; plain MPT with 0-150 keys; receipt list with event-log tries) into an empty target through merkle.NewBuilder (layered) or NewBuilderWithRawDatabase, requests served in fifo-window/lifo/random order with the bucket id chosen as sync2 (BucketIDs()[0]), sync v1 (always BytesByHash) or swapped, the second root attached after some deliveries, and hostile deliveries interleaved: duplicates, values of foreign tries, premature true values (not yet requested), bit flips, truncation/extension, random and empty values, true values under buckets without hasher or with another hasher. Non-trivial = distinct sync (hash of its delivery log) that completed with >= 8 accepted values, >= 1 nested value (storage trie node, code, validator list, event log node) and >= 3 different hostile classes delivered.",
 		MinNonTrivial: func(t string) int {
 			if t == ev.Thorough {
-				return 8000
+				return 12000
 			}
 			return 200
 		},
@@ -502,6 +502,10 @@ func run(c *ev.Ctx) {
 				return
 			}
 			list, _ = s.scan()
+			if len(list) == 0 {
+				// a "hostile" delivery happened to carry the last outstanding value
+				continue
+			}
 			var q req
 			switch order {
 			case 0:
